@@ -79,7 +79,8 @@ def run_case(case, rec):
         rec.count('refused_at_construct')
         rec.note('Properties refused valid values: ' + c.describe())
         return
-    h = call(header.ContentHeader, 0, size, c.value)
+    h = call(header.ContentHeader, [0, 0, 0, 7, 65535][rec.evaluations % 5],
+             size, c.value)
     if late and h.ok:
         for n, v in props.items():
             setattr(c.value, n, v)
